@@ -43,6 +43,14 @@ structure MS (R : Type) where
   `workloadResourcesMap` of the nodes whose Alloc succeeded, and `rollbackMap`) -/
   allocd : List (String × R) := []
   failed : List (String × R) := []
+  /-- cancellation plan of the run: the caller's context ends right before (`false`) or right after
+  (`true`) the addressed step -/
+  cancel : Option (Addr × Bool) := none
+  /-- the caller's context has ended -/
+  cancelled : Bool := false
+  /-- the current steps run under a context DETACHED from the caller's (rollbacks of `utils.Txn`, its
+  then-step when there is no rollback, deferred cleanups): a cancelled caller does not affect them -/
+  detached : Bool := false
 
 abbrev M (R : Type) (α : Type) := Option Addr → MS R → Out α × MS R
 
@@ -69,28 +77,45 @@ def bump (c : List (String × String × Nat)) (k n : String) : List (String × S
   | [] => [(k, n, 1)]
   | (k', n', v) :: rest => if k' = k ∧ n' = n then (k', n', v + 1) :: rest else (k', n', v) :: bump rest k n
 
-/-- does the fault plan hit the next step of kind `k` on node `n`? (`fired`: the single fault
-has already been spent; `c`: the ordinal counters) -/
-def hit (flt : Option Addr) (fired : Bool) (c : List (String × String × Nat)) (k n : String) : Bool :=
-  !fired && decide (flt = some ⟨k, n, count c k n⟩)
+/-- calls that take the caller's context (store, resource plugin, engine); WAL writes do not -/
+def sensitive (k : String) : Bool := k.startsWith "store" || k.startsWith "plugin" || k.startsWith "engine"
 
-@[simp] theorem hit_fired (flt : Option Addr) (c : List (String × String × Nat)) (k n : String) :
-    hit flt true c k n = false := by simp [hit]
+/-- is the next step of kind `k` on node `n` the one the cancellation plan addresses (before / after)? -/
+def cancelHere (ms : MS R) (k n : String) (after : Bool) : Bool :=
+  decide (ms.cancel = some (⟨k, n, count ms.cnt k n⟩, after))
+
+/-- the next step would be made with an ended caller context -/
+def cxOf (ms : MS R) (k n : String) : Bool :=
+  (ms.cancelled || cancelHere ms k n false) && !ms.detached && sensitive k
+
+/-- does the next step of kind `k` on node `n` fail? `fired`: a failure has already happened in this
+part of the operation (the single fault is spent / the part is being unwound); `c`: the ordinal
+counters; `cx`: the step would be made with an ended caller context (`cxOf`). -/
+def hit (flt : Option Addr) (fired : Bool) (c : List (String × String × Nat)) (cx : Bool) (k n : String) : Bool :=
+  !fired && (decide (flt = some ⟨k, n, count c k n⟩) || cx)
+
+@[simp] theorem hit_fired (flt : Option Addr) (c : List (String × String × Nat)) (cx : Bool) (k n : String) :
+    hit flt true c cx k n = false := by simp [hit]
 
 @[simp] theorem hit_none (fired : Bool) (c : List (String × String × Nat)) (k n : String) :
-    hit none fired c k n = false := by simp [hit]
+    hit none fired c false k n = false := by simp [hit]
 
-/-- machine state after the injected failure of a step (no effect) -/
+/-- after the step: has the caller's context ended by now? -/
+def cancelledAfter (ms : MS R) (k n : String) : Bool :=
+  ms.cancelled || cancelHere ms k n false || cancelHere ms k n true
+
+/-- machine state after the failure of a step (no effect) -/
 def failMS (ms : MS R) (k n : String) : MS R :=
-  { ms with fired := true, cnt := bump ms.cnt k n, tr := ms.tr ++ [(k, n, false)] }
+  { ms with fired := true, cnt := bump ms.cnt k n, tr := ms.tr ++ [(k, n, false)], cancelled := cancelledAfter ms k n }
 
 /-- machine state after a successful step with effect `eff` -/
 def okMS (ms : MS R) (k n : String) (eff : State R → State R) : MS R :=
-  { ms with st := eff ms.st, cnt := bump ms.cnt k n, tr := ms.tr ++ [(k, n, true)] }
+  { ms with st := eff ms.st, cnt := bump ms.cnt k n, tr := ms.tr ++ [(k, n, true)], cancelled := cancelledAfter ms k n }
 
-/-- an externally visible step with effect `eff` -/
+/-- an externally visible step with effect `eff`: it fails (without effect) when the single-fault plan
+addresses it or when it would be made with an ended caller context -/
 def step (k n : String) (eff : State R → State R) : M R Unit := fun flt ms =>
-  if hit flt ms.fired ms.cnt k n then (.fail, failMS ms k n) else (.ok (), okMS ms k n eff)
+  if hit flt ms.fired ms.cnt (cxOf ms k n) k n then (.fail, failMS ms k n) else (.ok (), okMS ms k n eff)
 
 /-- a read-only step -/
 def readStep (k n : String) : M R Unit := step k n id
@@ -115,22 +140,34 @@ def attempt (m : M R Unit) : M R Bool := fun flt ms =>
   | (.ok _, ms') => (.ok true, ms')
   | (.fail, ms') => (.ok false, ms')
 
+/-- run `m` under a context detached from the caller's (`utils.NewInheritCtx`) -/
+def withDetached {α} (m : M R α) : M R α := fun flt ms =>
+  let r := m flt { ms with detached := true }
+  (r.1, { r.2 with detached := ms.detached })
+
+/-- start of an independent part of an operation (next workload, next node, next instance): under a
+cancellation plan the part is exposed to the ended context again (`fired` only says that the
+PREVIOUS part is being unwound); under a single-fault plan nothing changes -/
+def renew : M R Unit := fun flt ms =>
+  (.ok (), if flt.isNone && ms.cancel.isSome then { ms with fired := false } else ms)
+
 /-- `utils.Txn(cond, then, rollback)`: run `cond`; if it fails, run `rollback true` (when a
 rollback is given) and fail; otherwise run `thn`; if it fails run `rollback false` and fail.
-The rollback's own error is only logged. -/
+The rollback's own error is only logged. Rollbacks run detached from the caller's context, and so
+does `thn` when there is no rollback ("forbid interrupting further process"). -/
 def txn (cond thn : M R Unit) (rollback : Option (Bool → M R Unit)) : M R Unit := fun flt ms =>
   match cond flt ms with
   | (.fail, ms1) =>
     match rollback with
     | none => (.fail, ms1)
-    | some rb => (.fail, (rb true flt ms1).2)
+    | some rb => (.fail, (withDetached (rb true) flt ms1).2)
   | (.ok _, ms1) =>
-    match thn flt ms1 with
+    match (match rollback with | none => withDetached thn | some _ => thn) flt ms1 with
     | (.ok _, ms2) => (.ok (), ms2)
     | (.fail, ms2) =>
       match rollback with
       | none => (.fail, ms2)
-      | some rb => (.fail, (rb false flt ms2).2)
+      | some rb => (.fail, (withDetached (rb false) flt ms2).2)
 
 /-- run `m`; if it fails also send message `msg` (Go: deferred `ch <- &Message{Error: err}`) -/
 def withFailMsg (m : M R Unit) (msg : Msg R) : M R Unit := fun flt ms =>
@@ -149,6 +186,7 @@ def forEach {α} (xs : List α) (f : α → M R Unit) : M R Unit :=
   | x :: rest => do f x; forEach rest f
 
 /-- run a program from a state under a fault plan -/
-def run {α} (m : M R α) (flt : Option Addr) (s : State R) : Out α × MS R := m flt { st := s }
+def run {α} (m : M R α) (flt : Option Addr) (s : State R) (cancel : Option (Addr × Bool) := none) : Out α × MS R :=
+  m flt { st := s, cancel := cancel }
 
 end Eru.Cluster
